@@ -14,7 +14,7 @@ from typing import Dict, List, Optional, Tuple
 import common
 import spec as S
 
-GEN_VERSION = "13"
+GEN_VERSION = "17"
 
 STRUM_DERIVES = ["EnumString", "Display", "AsRefStr", "IntoStaticStr", "VariantNames", "EnumIter", "EnumCount", "FromRepr",
                  "VariantArray", "EnumDiscriminants", "EnumIs", "EnumTryAs", "EnumMessage", "EnumProperty", "EnumTable",
@@ -47,6 +47,7 @@ class V:
     disc: Optional[str] = None
     field_attrs: Dict[int, List[str]] = field(default_factory=dict)
     raw_attrs: List[str] = field(default_factory=list)       # e.g. #[strum_discriminants(..)]
+    docs_after: List[str] = field(default_factory=list)      # doc lines written after the attributes
 
     def render(self) -> str:
         lines = []
@@ -61,6 +62,8 @@ class V:
         if not getattr(self, "attrs_after_raw", False):
             for r in self.raw_attrs:
                 lines.append("    " + r)
+        for d in self.docs_after:
+            lines.append("    ///" + d)
         body = self.name
         if self.kind == "tuple":
             fs = []
@@ -110,6 +113,8 @@ class E:
                self.prelude]
         ders = list(self.std_derives) + [d for d in self.derives]
         out.append("#[derive(%s)]" % ", ".join(ders))
+        for r in getattr(self, "pre_attrs", []) or []:
+            out.append(r)
         if self.repr:
             out.append("#[repr(%s)]" % self.repr)
         if any(d in STRUM_DERIVES for d in self.derives):
@@ -466,6 +471,14 @@ def family_placeholders(start: int) -> List[E]:
          ("NamedEsc", "named", [("a", "u8")], "{{a}}={a}"), ("NamedFixed", "named", [("a", "u8")], "fixed {{}} name"), ("Unit", "unit", [], "plain unit")],
         [("Width", "tuple", ["u8", "usize"], "{0:>1$}"), ("Dbg", "tuple", ["u8", "Txt"], "{1:?}/{0:#x}"), ("Last", "tuple", ["Txt", "u8", "u8"], "{2}-{1}-{0}")],
     ]
+    ser_sets = [("SerNamed", "named", [("sat", "u8")], ['serialize = "s"', 'serialize = "sat={sat:03}%"']), ("SerTuple", "tuple", ["u8", "u8"], ['serialize = "{1}/{0} long"', 'serialize = "t"']),
+                ("SerFixed", "tuple", ["u8"], ['serialize = "fixed one"', 'serialize = "f"']), ("SerUnit", "unit", [], ['serialize = "unit name"'])]
+    vs = []
+    for nm, kind, fields, metas in ser_sets:
+        fl = [(None, t) for t in fields] if kind == "tuple" else (list(fields) if kind == "named" else [])
+        vs.append(V(nm, kind, fl, [metas]))
+    out.append(E("Plh%04d" % (start + 50), "placeholders", ["Display", "EnumString", "AsRefStr"], vs, std_derives=["Clone", "Debug"]))
+    out.append(E("Plh%04d" % (start + 51), "placeholders", ["Display", "EnumString"], [V(v.name, v.kind, list(v.fields), [list(a) for a in v.attrs]) for v in vs], attrs=[['prefix = "p/"']], std_derives=["Clone", "Debug"]))
     for i, vs_ in enumerate(sets):
         vs = []
         for nm, kind, fields, lit in vs_:
@@ -500,6 +513,20 @@ def family_big(start: int, sizes: List[int]) -> List[E]:
         out.append(E("Big%04d" % (start + i), "big", ["EnumString", "Display", "AsRefStr", "IntoStaticStr", "VariantNames", "EnumIter", "EnumCount", "FromRepr", "VariantArray",
                                                       "EnumIs", "EnumTable", "EnumDiscriminants", "EnumMessage", "EnumProperty"], vs, attrs=attrs, std_derives=["Clone", "Copy", "Debug", "PartialEq"],
                      repr="u16" if i % 2 else None))
+    return out
+
+
+def family_style_ci(start: int) -> List[E]:
+    """Family A5: every style string x enum-level / variant-level ascii_case_insensitive, on identifiers without explicit spelling."""
+    out = []
+    eid = start
+    for style in STYLES:
+        for e_aci in (False, True):
+            vs = [V("HTTPServer"), V("WarnOnly", attrs=[["ascii_case_insensitive = false"]]), V("dark_blue", attrs=[["ascii_case_insensitive"]]),
+                  V("Ok", attrs=[["ascii_case_insensitive = true"]]), V("Mixed9Case")]
+            metas = (["serialize_all = %s" % rstr(style)] if style else []) + (["ascii_case_insensitive"] if e_aci else [])
+            out.append(E("Sci%04d" % eid, "style_ci", ["EnumString", "Display", "VariantNames", "AsRefStr"], vs, attrs=[metas] if metas else []))
+            eid += 1
     return out
 
 
@@ -557,6 +584,13 @@ def family_iter(rng: random.Random, start: int, thorough: bool) -> List[E]:
                 v = V(["North", "SouthEast", "West2", "up_down", "Q", "HTTPGet", "Z9", "mid", "Last_", "Extra"][j])
                 if j in dis:
                     v.attrs = [["disabled"]]
+                    # `disabled` sharing its attribute list with other keys, in either order, or split over two attributes
+                    if (n * 3 + j) % 4 == 1:
+                        v.attrs = [["disabled", "message = %s" % rstr("m%d" % j)]]
+                    elif (n * 3 + j) % 4 == 2:
+                        v.attrs = [["serialize = %s" % rstr("off%d_%d" % (n, j)), "disabled"]]
+                    elif (n * 3 + j) % 4 == 3:
+                        v.attrs = [["to_string = %s" % rstr("Off %d %d" % (n, j))], ["disabled"]]
                     # other attributes before / after the strum attribute
                     if (n + j) % 3 == 0:
                         v.docs = [" documented, then disabled"]
@@ -608,7 +642,7 @@ def family_iter(rng: random.Random, start: int, thorough: bool) -> List[E]:
                     if j in dis:
                         v.attrs = [["disabled"]]
                     vs.append(v)
-                e = E("Rep%04d" % eid, "repr", ["FromRepr", "EnumIter", "EnumCount", "EnumDiscriminants", "VariantArray"], vs, repr=rp,
+                e = E("Rep%04d" % eid, "repr", ["FromRepr", "EnumIter", "EnumCount", "EnumDiscriminants", "VariantArray", "EnumTable", "EnumIs", "VariantNames"], vs, repr=rp,
                       std_derives=["Clone", "Copy", "Debug", "PartialEq"])
                 e.notes = {"form": form, "repr": rp, "placement": pl}
                 out.append(e)
@@ -641,6 +675,16 @@ def family_iter(rng: random.Random, start: int, thorough: bool) -> List[E]:
                 e.notes = {"n": n, "placement": pl}
                 out.append(e)
                 eid += 1
+    # B3b: combined representation hints on data-carrying enums (C + integer type is only legal with fields)
+    for rp, pre in [("C, u8", []), ("u16, C", []), ("i8", ["#[repr(C)]"]), ("C", ["#[repr(u32)]"]), ("align(8), u8", [])]:
+        vs = [V("Unit0"), V("Tup1", "tuple", [(None, "u8")]), V("Rec2", "named", [("a", "i32")]), V("Off3", "tuple", [(None, "u8")], attrs=[["disabled"]]), V("Last4")]
+        vs[1].disc = "3"
+        vs[4].disc = "9"
+        e = E("Dat%04d" % eid, "iter_data", ["FromRepr", "EnumIter", "EnumCount", "EnumIs", "VariantNames"], vs, repr=rp)
+        e.pre_attrs = pre
+        e.notes = {"repr": rp}
+        out.append(e)
+        eid += 1
     # B4: generics
     gens = [
         ("<T: Default + Clone + ::core::fmt::Debug + PartialEq>", "", [V("Unit0"), V("Hold1", "tuple", [(None, "T")]), V("Rec2", "named", [("t", "T"), ("n", "u8")])]),
@@ -688,6 +732,7 @@ def family_messages(rng: random.Random, start: int, count: int) -> List[E]:
         [['k = "v"', 'k2 = "v2"', 'k3 = 3', 'k4 = 4', 'k5 = true', 'k6 = false']],
         [['neg = -9223372036854775807', 'zero = 0']],
         [['level = "top"', 'level = 3', 'level = true']],
+        [['libellé = "x"', 'quantité = 12', 'périmé = false', 'a = "short"']],
         [['lvl = 1'], ['lvl = "one"', 'other = false']],
     ]
     kinds = ["unit", "t1", "n2", "t0"]
@@ -717,6 +762,9 @@ def family_messages(rng: random.Random, start: int, count: int) -> List[E]:
             if mm == 5:
                 metas.append("to_string = %s" % rstr("T%d_%d" % (eid, j)))
             v.docs = list(doc_sets[(i + j * 3) % len(doc_sets)])
+            if len(v.docs) >= 2 and (i + j) % 3 == 0:
+                # documentation split by the other attributes
+                v.docs, v.docs_after = v.docs[:1], v.docs[1:]
             attrs = [metas] if metas else []
             for grp in prop_sets[(i * 2 + j) % len(prop_sets)]:
                 attrs.append(["props(%s)" % ", ".join(grp)])
@@ -770,6 +818,17 @@ def family_discriminants(rng: random.Random, start: int) -> List[E]:
         e = E("Dsc%04d" % eid, "discriminants", ["EnumDiscriminants", "FromRepr"], vs, repr=rp, disc_attrs=[["derive(FromRepr, EnumIter)"]])
         out.append(e)
         eid += 1
+    # reprs outside FromRepr's list, and several #[repr] attributes (the last integer one decides the discriminant type)
+    for rp, pre, discs, ders in [("u128", [], ["1", None, "1 << 100", None, None], ["EnumDiscriminants"]), ("i128", [], ["-5", None, None, "7", None], ["EnumDiscriminants"]),
+                                 ("u8", ["#[repr(align(4))]"], [None, "3", None, None, None], ["EnumDiscriminants", "FromRepr"]),
+                                 ("i16", ["#[repr(align(8))]"], ["-2", None, None, None, "9"], ["EnumDiscriminants", "FromRepr"])]:
+        vs = base()
+        for v, d in zip(vs, discs):
+            v.disc = d
+        e = E("Dsc%04d" % eid, "discriminants", ders, vs, repr=rp, disc_attrs=[["derive(EnumIter)"]])
+        e.pre_attrs = pre
+        out.append(e)
+        eid += 1
     return out
 
 
@@ -777,7 +836,8 @@ def family_try_as(start: int) -> List[E]:
     out = []
     eid = start
     vs = [V("Unit0"), V("One1", "tuple", [(None, "u8")]), V("Two2", "tuple", [(None, "u8"), (None, "Txt")]), V("Three3", "tuple", [(None, "i32"), (None, "u8"), (None, "Txt")]),
-          V("Named4", "named", [("a", "u8")]), V("Empty5", "tuple", []), V("Off6", "tuple", [(None, "u8")], attrs=[["disabled"]]), V("HTTPCode200", "tuple", [(None, "u8")]),
+          V("Named4", "named", [("a", "u8")]), V("Empty5", "tuple", []), V("Off6", "tuple", [(None, "u8")], attrs=[["disabled"]]), V("Off6b", "tuple", [(None, "u8")], attrs=[["serialize = \"lzw\"", "disabled"]]),
+          V("Off6c", "tuple", [(None, "u8"), (None, "i32")], attrs=[["disabled", "to_string = \"x\""]]), V("HTTPCode200", "tuple", [(None, "u8")]),
           V("ref_7", "tuple", [(None, "&'static str")])]
     out.append(E("Try%04d" % eid, "try_as", ["EnumTryAs", "EnumIs"], vs))
     eid += 1
@@ -810,6 +870,7 @@ def generate(tier: str, seed: int) -> List[E]:
     es += family_strings(rng, 70 if tier == "quick" else 1000, 1)
     es += family_unit_strings(rng, 24 if tier == "quick" else 240, 1)
     es += family_big(1, [33, 257] if tier == "quick" else [33, 64, 129, 257, 600])
+    es += family_style_ci(1)
     es += family_overlap(1)
     es += family_placeholders(1)
     es += family_casing(rng, 1, IDENT_DICT, STYLES)
